@@ -46,7 +46,7 @@ _ENTRY_DEFS = ("StoreAdd StoreRetrieve StoreData StoreIter StoreRaw XfBatch XfSi
                "EsTell GaTell GaTellDqd GoTellDqd AdamStep AscentStep ParallelAxes HeatmapDf "
                "FromRaw CvtInit GridInit EmitterInit OptInit").split()
 _NEG_DEFS = ("D7 D10 D10b D15 D19 D20 RetrieveSlice DataField AdamInplace AddKeeps XfWritesNew RawWrite "
-             "D38cvt D38init D41 D36 ObjAsStored").split()
+             "D38cvt D38init D41 D36 ObjAsStored BestFromBatch TellDqdKeepsSolution").split()
 
 THEOREMS = ([
     "Pyribs.C12.soundness",
@@ -94,6 +94,9 @@ ASSUMPTIONS = [
     "the property's list of outputs (DESIGN section 3) and are not flagged",
     "validate_batch rebinding add_info[name] = np.asarray(add_info[name]) in the caller's add_info dict keeps the "
     "values (a list entry becomes an equal ndarray) and is not counted as a mutation of a caller array",
+    "geometry properties (lower_bounds, upper_bounds, dims, interval_size, boundaries, centroids, samples; "
+    "ProximityArchive's cached bounds) and archive.dtypes hand out internal objects: outside the property's list "
+    "of outputs, not flagged",
     "Scheduler.ask() / emitter.ask() / ask_dqd() return arrays the object also keeps, and the rankers' "
     "target_measure_dir setter keeps what it is given: not in the property's list, not flagged (ask results are "
     "only used as probes of what a constructor kept)",
